@@ -54,6 +54,9 @@ def main():
             "caught": any(d["exit"] == 1 for d in detected.values()),
             "origin": "written by an independent sub-agent given only the property text and a scratch worktree",
         }
+        fc = json.load(open(os.path.join(VERIF, "seeded", "FIRST_CONTACT.json"))).get(seed.replace("/", "-"))
+        if fc:
+            meta["first_contact"] = fc
         json.dump(meta, open(os.path.join(dst, "meta.json"), "w"), indent=1)
         print(seed, "kept; caught=%s by %s" % (meta["caught"], {p: d["rules"] for p, d in detected.items()}))
 
